@@ -20,8 +20,8 @@ blk = loop.body()[0:2]          # [t: f32 ; t = 1.0]  -- starts with the stateme
 p = lift_alloc(foo, 't: _')
 try:
     got = [str(c._impl._node) for c in p.forward(blk)]
-    verdict("F24", got != ['t = 1.0'], f"forwarded block = {got}")
+    verdict("F_C06_move_endpoint", got != ['t = 1.0'], f"forwarded block = {got}")
 except InvalidCursorError:
-    verdict("F24", False, "reported invalid")
+    verdict("F_C06_move_endpoint", False, "reported invalid")
 except Exception as e:
-    verdict("F24", True, f"neither a cursor nor InvalidCursorError: {type(e).__name__}: {e}")
+    verdict("F_C06_move_endpoint", True, f"neither a cursor nor InvalidCursorError: {type(e).__name__}: {e}")
